@@ -315,11 +315,13 @@ def load(obj, classes=None):
     # reconstruction of the object
     raw_jsonclass = obj.pop("__jsonclass__")
 
-    for key, value in obj.items():
-        # Recursive loading
-        setattr(new_obj, key, load(value, classes))
-
-    # Restore the class information for further usage
-    obj["__jsonclass__"] = raw_jsonclass
+    try:
+        for key, value in obj.items():
+            # Recursive loading
+            setattr(new_obj, key, load(value, classes))
+    finally:
+        # Restore the class information for further usage, even if the
+        # loading of a member failed
+        obj["__jsonclass__"] = raw_jsonclass
 
     return new_obj
